@@ -47,7 +47,7 @@ def _equal_results(sp, a, b, what):
 
 def _rep_jobs(tier, seed):
     jobs = []
-    inst = _stopping_instances(tier) + [("nosol", [w]) for w in ("forced", "nopath", "chance")]
+    inst = _stopping_instances(tier) + [("nosol", [w]) for w in ("forced", "nopath", "chance", "walled")] + [("paid_final", [])]
     for g, a in inst:
         jobs.append(dict(game=g, args=a, nsym=0, steps=3, _cost=2))
     sym = [("fig55", [0.5, 0.75]), ("dead", [P1, ["D", "A"]]), ("dead", [PR, ["D", "A"]]), ("dead", [PR, ["A", "D", "D"]]),
@@ -113,7 +113,14 @@ def _present(g, desc, perm, order_mode, rename):
     inv = [0] * n
     for s, ps in enumerate(perm):
         inv[ps] = s
-    ren = (lambda a: "A_" + a[::-1] + "_z") if rename else (lambda a: a)
+    labels = sorted({x for tr in desc["transition_list"] for x, _ in tr if isinstance(x, str)})
+    if rename == 2 and labels:
+        # an injective renaming that maps one action to the empty string (a valid action name)
+        ren = lambda a: "" if a == labels[0] else "A_" + a[::-1] + "_z"
+    elif rename:
+        ren = lambda a: "A_" + a[::-1] + "_z"
+    else:
+        ren = lambda a: a
     tl2, pl2, rw2 = [None] * n, [None] * n, [None] * n
     for s in range(n):
         tr = [((ren(x) if isinstance(x, str) else x), perm[t]) for x, t in desc["transition_list"][s]]
@@ -156,6 +163,7 @@ def _pres_jobs(tier, seed):
                 ("lex", []), ("ties", ["quarter"]), ("ties", ["tenths"]), ("ties_p2", []), ("unreach", ["p2"])]
         inst += [("dead", [k, list(sk)]) for k in (P1, PR) for sk in itertools.product("DCABF", repeat=2)]
         inst += [("dead", [k, list(sk)]) for k in (P1, PR) for sk in (("D", "D", "A"), ("D", "A", "D"), ("A", "D", "D"), ("D", "F", "A"))]
+        inst += [("orphans", [o]) for o in (0, 1, 2)]
         nperm = 2
     else:
         inst = _stopping_instances("quick")
@@ -167,6 +175,7 @@ def _pres_jobs(tier, seed):
                 jobs.append(dict(game=g, args=a, perm=perm, order_mode=om, rename=True, nsym=(1 if g in ("cyc", "lex") else 2),
                                  _cost=5, _timeout_s=1500))
         jobs.append(dict(game=g, args=a, perm=list(range(n)), order_mode=1, rename=False, nsym=1, _cost=5, _timeout_s=1500))
+        jobs.append(dict(game=g, args=a, perm=list(range(n)), order_mode=0, rename=2, nsym=1, _cost=5, _timeout_s=1500))
     for g, a in _reach_only_instances(tier):
         n = build(g, a).n
         for perm in _perms(n, nperm, rnd):
@@ -225,8 +234,12 @@ def pipe_present(sp, game, args, perm, order_mode, rename, nsym):
         # rewards / final strategies for states reachable in the conditioned game
         ctl = G.condition(g.players, g.tl, r1[3], r1[1], prune)
         states = sorted(G.reach_from0(ctl)) if prune else list(range(g.n))
-        for s in states:
+        for s in range(g.n):
             sp.prove(sp.eq(r1[2][s], r2[2][perm[s]], 2 * TOL), "expected reward of state %d differs between presentations" % s)
+            if g.players[s] != PR and s not in states:
+                # states cut off by the conditioning: emptied or not, the same in both presentations
+                sp.prove((len(r1[0][s]) == 0) == (len(r2[0][perm[s]]) == 0),
+                         "state %d (cut off by the conditioning) has a final strategy in one presentation only" % s)
         w, cons = G.bellman_rewards(g.players, ctl, states, desc["rewards"], tag="w%d_" % int(prune))
         sp.add(cons)
         conds = []
